@@ -8,6 +8,11 @@ VIEWS = {"name": "views", "suite": "views", "quick": ["--count", 25000, "--depth
 VIEWS0 = {"name": "views0", "suite": "views", "quick": ["--count", 15000, "--depth", 0], "thorough": ["--count", 200000, "--depth", 0]}
 VIEWS_EXH = {"name": "views-exh", "suite": "views-exh", "quick": ["--universe", 1, "--bound", 5], "thorough": ["--universe", 3, "--bound", 10]}
 API = {"name": "api", "suite": "api", "quick": ["--count", 3000], "thorough": ["--count", 100000]}
+FLOAT = {"name": "float", "suite": "float", "quick": ["--count", 3000], "thorough": ["--count", 60000]}
+FLOAT_EXH = {"name": "float-exh", "suite": "float", "quick": ["--mode", "exh", "--universe", 4], "thorough": ["--mode", "exh", "--universe", 6]}
+FLOAT_ASSUME = [
+    "float theorems are stated over exact rationals (Num instance Rat) for the same definitions that the driver runs over Float: IEEE-754 rounding, NaN and infinities are outside the theorems; the correspondence compares bit patterns of every f64 result",
+]
 INT_ASSUME = [
     "i32 arithmetic modelled on unbounded Int (overflow is C17's subject); values in the explored inputs are small",
     "the engine theorems speak about runs that did not exhaust the model's fuel; the driver runs with fuel 10^7 and reports out-of-fuel explicitly (never seen)",
@@ -20,7 +25,18 @@ CHECKS = {
     "C03": {"suites": [ENGINE, API], "assumptions": INT_ASSUME},
     "C04": {"suites": [ENGINE, API], "assumptions": INT_ASSUME + ["optimisation fast path and root LP step are switched off by hook H4 in the engine-level runs (call-site findings)"]},
     "C05": {"suites": [PRUNE, PRUNE_EXH, ENGINE], "assumptions": INT_ASSUME, "exhaustive_in_thorough": True},
-    "C12": {"suites": [VIEWS0, PRUNE], "assumptions": INT_ASSUME + ["float arms: not yet stated as theorems in this revision"]},
+    "C12": {"suites": [VIEWS0, PRUNE, FLOAT, FLOAT_EXH], "lean_modules": ["SelenModel.Props.C12", "SelenModel.Props.C12Float"],
+            "assumptions": INT_ASSUME + FLOAT_ASSUME},
+    "C06": {"suites": [FLOAT, API], "assumptions": FLOAT_ASSUME + ["the theorems are about the float/int linear propagators and the float arms of try_set_min/max (Model/FloatCore.lean); the API-level stream (#flapi lines, witness-constructed models through Model) is an oracle on the implementation only"]},
+    "C07": {"suites": [FLOAT], "assumptions": FLOAT_ASSUME + ["witness-constructed models: every inequality holds at the witness with margin >= max|c_i|*step_i, equalities hold exactly at grid points (the hypothesis of C07_floatlin_sound_margin)"]},
+    "C16": {"suites": [{"name": "determ", "suite": "determ", "quick": ["--count", 1500], "thorough": ["--count", 20000]}],
+            "cross_process": {"quick": [1500, 3], "thorough": [6000, 8]},
+            "assumptions": ["determinism across processes is OBSERVED (byte-identical transcripts of separate OS processes with different SipHash keys), not proved; the theorems show that every hash-ordered collection on the solving path is consumed by an order-blind operation (sort after collect, commuting removals, keyed access) and that the model's search is a function of its inputs",
+                            "runs are cut by a deterministic work budget (hook H6) so that no wall-clock limit interferes; lines where the wall-clock watchdog fired are skipped"]},
+    "C18": {"suites": [{"name": "sudoku", "suite": "sudoku", "quick": ["--count", 300], "thorough": ["--count", 4000]},
+                       {"name": "sudoku-exh", "suite": "sudoku", "thorough": ["--exh"]}],
+            "assumptions": ["the general solver is not re-modelled here: its answer is an input of the Sudoku model (GenAnswer) and C18_end_to_end is parametric in a general solver satisfying the C01-C03 statements",
+                            "each solve is capped at 3000 engine iterations through hook H6 (deterministic budget); `limit-as-none` is the recorded finding for the real 60 s limit"]},
     "C13": {"suites": [VIEWS, VIEWS_EXH], "assumptions": INT_ASSUME, "exhaustive_in_thorough": True},
     "C14": {"suites": [ENGINE, API], "assumptions": INT_ASSUME},
     "C15": {"suites": [{"name": "limits", "suite": "limits", "quick": ["--count", 120], "thorough": ["--count", 3000]},
